@@ -184,9 +184,9 @@ Props/C14.vos Props/C14.vok Props/C14.required_vos: Props/C14.v Base/Bytes.vos B
 Props/C15.vo Props/C15.glob Props/C15.v.beautified Props/C15.required_vo: Props/C15.v Base/Bytes.vo Base/Dec.vo Spec/Crc16.vo Spec/Slot.vo Gen/Crc16.vo Model/Slot.vo Proofs/SlotProofs.vo
 Props/C15.vio: Props/C15.v Base/Bytes.vio Base/Dec.vio Spec/Crc16.vio Spec/Slot.vio Gen/Crc16.vio Model/Slot.vio Proofs/SlotProofs.vio
 Props/C15.vos Props/C15.vok Props/C15.required_vos: Props/C15.v Base/Bytes.vos Base/Dec.vos Spec/Crc16.vos Spec/Slot.vos Gen/Crc16.vos Model/Slot.vos Proofs/SlotProofs.vos
-Props/C16.vo Props/C16.glob Props/C16.v.beautified Props/C16.required_vo: Props/C16.v Base/Bytes.vo Model/Filter.vo Model/Rump.vo Model/Cupcake.vo Model/Restore.vo Proofs/RestoreProofs.vo Proofs/RumpProofs.vo
-Props/C16.vio: Props/C16.v Base/Bytes.vio Model/Filter.vio Model/Rump.vio Model/Cupcake.vio Model/Restore.vio Proofs/RestoreProofs.vio Proofs/RumpProofs.vio
-Props/C16.vos Props/C16.vok Props/C16.required_vos: Props/C16.v Base/Bytes.vos Model/Filter.vos Model/Rump.vos Model/Cupcake.vos Model/Restore.vos Proofs/RestoreProofs.vos Proofs/RumpProofs.vos
+Props/C16.vo Props/C16.glob Props/C16.v.beautified Props/C16.required_vo: Props/C16.v Base/Bytes.vo Model/Filter.vo Model/Rump.vo Model/Rdb.vo Model/Cupcake.vo Model/Restore.vo Proofs/RestoreProofs.vo Proofs/RumpProofs.vo
+Props/C16.vio: Props/C16.v Base/Bytes.vio Model/Filter.vio Model/Rump.vio Model/Rdb.vio Model/Cupcake.vio Model/Restore.vio Proofs/RestoreProofs.vio Proofs/RumpProofs.vio
+Props/C16.vos Props/C16.vok Props/C16.required_vos: Props/C16.v Base/Bytes.vos Model/Filter.vos Model/Rump.vos Model/Rdb.vos Model/Cupcake.vos Model/Restore.vos Proofs/RestoreProofs.vos Proofs/RumpProofs.vos
 Props/C18.vo Props/C18.glob Props/C18.v.beautified Props/C18.required_vo: Props/C18.v Base/Bytes.vo Model/Backlog.vo Proofs/BacklogProofs.vo
 Props/C18.vio: Props/C18.v Base/Bytes.vio Model/Backlog.vio Proofs/BacklogProofs.vio
 Props/C18.vos Props/C18.vok Props/C18.required_vos: Props/C18.v Base/Bytes.vos Model/Backlog.vos Proofs/BacklogProofs.vos
